@@ -292,6 +292,7 @@ func main() {
 		panic(err)
 	}
 
+	metadataRoundTrip(g, *n)
 	sent := 0
 	if *loop {
 		sent = transportRoundTrip(g, *n, *big)
@@ -307,6 +308,56 @@ func main() {
 	}
 	if len(violations) > 0 {
 		os.Exit(1)
+	}
+}
+
+// metadataRoundTrip writes snapshots with boundary metadata through the real
+// snapshot storage and reads them back through a fresh storage handle.
+func metadataRoundTrip(g *gen.G, n int) {
+	dir, err := os.MkdirTemp(os.Getenv("VERIF_SCRATCH"), "codecmeta")
+	if err != nil {
+		panic(err)
+	}
+	defer os.RemoveAll(dir)
+	m := n / 10
+	if m < 20 {
+		m = 20
+	}
+	for i := 0; i < m; i++ {
+		sub := fmt.Sprintf("%s/%d", dir, i)
+		ss, err := raft.NewSnapshotStorage(sub)
+		if err != nil {
+			violate("NewSnapshotStorage failed: %v", err)
+			return
+		}
+		idx, term, conf, data := g.U64(), g.U64(), g.Bytes(300), g.Bytes(70000)
+		f, err := ss.NewSnapshotFile(idx, term, conf)
+		if err != nil {
+			violate("NewSnapshotFile(%d,%d) failed: %v", idx, term, err)
+			continue
+		}
+		if _, err := f.Write(data); err != nil {
+			violate("snapshot write failed: %v", err)
+		}
+		if err := f.Close(); err != nil {
+			violate("snapshot close failed: %v", err)
+			continue
+		}
+		ss2, _ := raft.NewSnapshotStorage(sub)
+		rf, err := ss2.SnapshotFile()
+		if err != nil || rf == nil {
+			violate("snapshot (index %d, term %d) cannot be read back: %v", idx, term, err)
+			continue
+		}
+		md := rf.Metadata()
+		var buf bytes.Buffer
+		buf.ReadFrom(rf)
+		rf.Close()
+		if md.LastIncludedIndex != idx || md.LastIncludedTerm != term || !bytes.Equal(md.Configuration, conf) || !bytes.Equal(buf.Bytes(), data) {
+			violate("snapshot metadata/data written as (index %d, term %d, %d conf bytes, %d data bytes) reads back as (index %d, term %d, %d conf bytes, %d data bytes)",
+				idx, term, len(conf), len(data), md.LastIncludedIndex, md.LastIncludedTerm, len(md.Configuration), buf.Len())
+		}
+		g.Kinds["SNAPSHOT_METADATA_ROUNDTRIP(go only)"]++
 	}
 }
 
